@@ -976,6 +976,15 @@ func (ex *Exec) evCall(x *SCall, env *Env) Val {
 			return TV(IfVal(v.T), types.NewPointer(tn))
 		}
 		return TV(v.T, types.NewPointer(tn))
+	case "structval":
+		// the struct value behind an immutable package-level pointer variable
+		v := arg(0)
+		if v.Kind != VTerm || !strings.HasPrefix(v.T.S, "G_") {
+			specFail("structval: not a package-level pointer")
+		}
+		sym := "sv." + v.T.S
+		env.st.declare(sym, SortInt)
+		return TV(mkTerm(sym, SortInt), nil)
 	case "liberr":
 		v := arg(0)
 		ex.wantSort(v, SortIface, "liberr")
